@@ -7,7 +7,7 @@ use serde_json::json;
 fn model_specs(tier: Tier) -> Vec<Spec> {
     match tier {
         Tier::Quick => {
-            let mut v = vec![g(2, 2, 3, 3), g(2, 0, 3, 3), g(2, 1, 3, 3), g(1, 3, 3, 2), Spec::Files { k: 1, cap: 250 }];
+            let mut v = vec![g(2, 2, 3, 3), g(2, 0, 3, 3), g(2, 1, 3, 3), g(1, 3, 3, 2), crate::gramsweep::gcyclic(3, 1, 3, 3), Spec::Files { k: 1, cap: 250 }];
             v.extend(all_seed_nbh(1, 1, 100_000));
             v
         }
@@ -53,7 +53,12 @@ pub fn run(ctx: &Ctx, property: &'static str) -> Outcome {
     let mut out = Outcome::new("model_checking");
     let deep = ctx.tier == Tier::Thorough;
     // ---- real-code layer (E3)
-    let real = crate::reallayer::run_layer(property, &real_specs(ctx.tier, property), deep, ctx.tier.pick(0, 1));
+    // the witness of the known finding D12 makes the real parse exhaust its memory limit: only C01 (termination) runs it
+    let mut rspecs = real_specs(ctx.tier, property);
+    if property != "C01" {
+        rspecs.retain(|s| !matches!(s, Spec::Nbh { seed, .. } if *seed == "cyclic-hidden"));
+    }
+    let real = crate::reallayer::run_layer(property, &rspecs, deep, ctx.tier.pick(0, 1));
     // ---- model layer (E2); C02 is decided on real code alone
     let model = if property == "C02" { None } else { Some(crate::pda::run_model_layer(ctx, property, &model_specs(ctx.tier), ctx.tier.pick(400.0, 3000.0))) };
     let mut notes: Vec<String> = vec![];
